@@ -12,6 +12,22 @@ class Unsupported(Exception):
     pass
 
 
+def exact(x):
+    """exact simplification of a constant: NEVER sympy.nsimplify without rational=True (it
+    identifies numbers numerically: 17/19 - 955/(133*20**8) would become 17/19)"""
+    x = sp.sympify(x)
+    if x.is_Rational:
+        return x
+    for f in (sp.expand, sp.simplify, lambda y: sp.radsimp(sp.simplify(y))):
+        try:
+            y = f(x)
+        except Exception:
+            continue
+        if y.is_Rational:
+            return y
+    return sp.radsimp(sp.simplify(x))
+
+
 def split_piecewise(expr, n):
     """Polar's  Piecewise((v0, n<=0), ..., (general, True)) -> (k, general) where k is the
     number of special cases (general claimed for n >= k)."""
@@ -71,7 +87,7 @@ def decompose(expr, n):
                 raise Unsupported(f"factor {f}")
             else:
                 coeff = coeff * f
-        base = sp.nsimplify(sp.radsimp(sp.simplify(base)))
+        base = exact(base)
         key = base
         lst = groups.setdefault(key, [])
         while len(lst) <= deg:
@@ -118,7 +134,7 @@ def to_field(c, gens):
     element over gens[:k] = (A, B) meaning A + B*sqrt(gens[k-1]) with A, B over gens[:k-1]."""
     c = sp.sympify(c)
     if not gens:
-        c = sp.nsimplify(c) if not c.is_Rational else c
+        c = exact(c)
         if not c.is_Rational:
             c2 = sp.simplify(c)
             if not c2.is_Rational:
